@@ -81,4 +81,8 @@ theorem C14_repeated_inputs (k : Kind) (outId : Nat) (args : List Nat) (ins : Li
 /-! Non-vacuity: three arguments, two distinct futures. -/
 example : keysOf [4, 4, 7] = [4, 7] := by decide
 
+/-- (futures/bool.py, regenerated) `handle_done`: the decided test, the key deletion and the decision K5 are ONE section on the
+operation's lock - which is why a completion order exists to fold over -, the writes it decided follow outside the lock. -/
+theorem C14_source_facts : K5.handleDoneGlue = true := by decide
+
 end MoreExec.BoolOp
